@@ -199,7 +199,9 @@ def oracle(op, out):
     if t_conn is not None:
         if I > 0:
             if pings and not (t_conn + I // 2 <= pings[0] < t_conn + I):
-                return (f"first ping at {pings[0]} outside [connect+I/2, connect+I)", dict(base, kind="first-ping"))
+                late = pings[0] >= t_conn + I
+                return (f"first ping at {pings[0]} outside [connect+I/2, connect+I)",
+                        dict(base, kind="timers-stopped", cause=cause) if late else dict(base, kind="first-ping-early"))
             for a, b in zip(pings, pings[1:]):
                 if b - a != I:
                     return (f"ping cadence broken: {a} then {b} (interval {I})",
@@ -209,7 +211,9 @@ def oracle(op, out):
                 return (f"pings stopped: none at or before {nxt} although the connection stays open",
                         dict(base, kind="timers-stopped", cause=cause))
         if alives and not (t_conn + pres // 2 <= alives[0] < t_conn + pres):
-            return (f"first presence tick at {alives[0]} outside [connect+P/2, connect+P)", dict(base, kind="first-alive"))
+            late = alives[0] >= t_conn + pres
+            return (f"first presence tick at {alives[0]} outside [connect+P/2, connect+P)",
+                    dict(base, kind="timers-stopped", cause=cause) if late else dict(base, kind="first-alive-early"))
         for a, b in zip(alives, alives[1:]):
             if b - a != pres:
                 return (f"presence tick cadence broken: {a} then {b} (interval {pres})",
